@@ -42,6 +42,16 @@ K("awkward_ListArray_rpad_and_clip_length_axis1",
   serves=["C09", "C12", "C13"])
 
 K("awkward_ListArray_getitem_jagged_descend",
+  # C01 (a jagged index selects list by list): the offsets of the next level give every list its own length, whatever
+  # order or position the lists have in the content; a slice row of another length than its list is an error
+  loops={"L0": ["0 <= i", "tooffsets[0] == ite(sliceouterlen == 0, 0, slicestarts[0])",
+                "forall(q, 0, i, tooffsets[q + 1] - tooffsets[q] == fromstops[q] - fromstarts[q])",
+                "forall(q, 0, i, slicestops[q] - slicestarts[q] == fromstops[q] - fromstarts[q])"]},
+  ensures_ok=["tooffsets[0] == ite(sliceouterlen == 0, 0, slicestarts[0])",
+              "forall(q, 0, sliceouterlen, tooffsets[q + 1] - tooffsets[q] == fromstops[q] - fromstarts[q])",
+              "forall(q, 0, sliceouterlen, slicestops[q] - slicestarts[q] == fromstops[q] - fromstarts[q])"],
+  ensures_fail=["0 <= err_identity and err_identity < sliceouterlen",
+                "slicestops[err_identity] - slicestarts[err_identity] != fromstops[err_identity] - fromstarts[err_identity]"],
   per_spec={"U32": {"requires": [LE("fromstarts", "fromstops", "sliceouterlen")]}},
   serves=["C01", "C12", "C13"])
 
